@@ -80,6 +80,17 @@ def eval_shared_expr(I, module, cls, expr, name):
                 v.fresh = False
                 v.shared = name
             return v
+        if isinstance(ref, External) and ref.name in ('collections.namedtuple', 'namedtuple') and len(expr.args) == 2:
+            from sa.values import ARecordType
+            try:
+                tn = I.P.fold(expr.args[0], module, cls)
+                fl = I.P.fold(expr.args[1], module, cls)
+            except Exception:
+                tn = fl = None
+            if isinstance(fl, str):
+                fl = fl.replace(',', ' ').split()
+            if isinstance(tn, str) and isinstance(fl, (tuple, list)) and all(isinstance(x, str) for x in fl):
+                return ARecordType(tn, fl)
         if isinstance(ref, External):
             return Unk(name, taint=(), src=('shared', name))
         if isinstance(ref, FunctionInfo) and ref.cls is None:
@@ -129,7 +140,8 @@ def external_value(I, ext, node):
 STR_METHODS = {'removesuffix', 'removeprefix', 'decode', 'encode', 'split', 'strip', 'lstrip', 'rstrip', 'startswith', 'endswith', 'find',
                'index', 'join', 'format', 'lower', 'upper', 'replace', 'splitlines', 'count', 'isdigit',
                'rsplit', 'partition', 'rfind', 'title', 'rpartition', 'isspace', 'isalnum', 'lstrip',
-               'zfill', 'ljust', 'rjust', 'isdecimal', 'isnumeric', 'translate', 'expandtabs', 'casefold'}
+               'zfill', 'ljust', 'rjust', 'isdecimal', 'isnumeric', 'translate', 'expandtabs', 'casefold',
+               'isupper', 'islower', 'isalpha', 'isidentifier', 'istitle', 'capitalize', 'swapcase'}
 DICT_METHODS = {'get', 'pop', 'items', 'keys', 'values', 'copy', 'update', 'clear', 'setdefault', 'popitem'}
 LIST_METHODS = {'append', 'pop', 'extend', 'insert', 'remove', 'sort', 'reverse', 'index', 'copy', 'clear', 'count'}
 STREAM_METHODS = {'read', 'write', 'seek', 'tell', 'getvalue', 'close', 'readline', 'readlines', 'flush',
@@ -139,6 +151,10 @@ MATCH_METHODS = {'group', 'groups', 'groupdict', 'start', 'end', 'span'}
 
 
 def get_attr(I, obj, name, node):
+    if type(obj).__name__ == 'ARecord':
+        if name in obj.rtype.fields:
+            return obj.values[obj.rtype.fields.index(name)]
+        raise AnalysisError('attribute %s of a %s record' % (name, obj.rtype.name))
     from sa.interp import AbsRaise
     if isinstance(obj, Unk) and obj.has_const:
         obj = obj.const
@@ -369,6 +385,10 @@ def subscript(I, obj, idx, node):
         from sa.calls import m_group
         return m_group(I, obj, [idx], {}, node, 'match')
     from sa.interp import AbsRaise
+    if type(obj).__name__ == 'ARecord':
+        if is_concrete(idx) and isinstance(concrete(idx), int) and -len(obj.values) <= concrete(idx) < len(obj.values):
+            return obj.values[concrete(idx)]
+        raise AnalysisError('subscript %r of a %s record' % (idx, obj.rtype.name))
     obj = concrete(obj) if is_concrete(obj) else obj
     cidx = concrete(idx)
     if getattr(I, 'record_reads', False) and isinstance(obj, (ADict, AList)):
@@ -610,6 +630,8 @@ def iterate(I, it, node):
     if isinstance(it, tuple) and it and isinstance(it[0], str) and it[0] == 'items' and len(it) >= 3 \
             and isinstance(it[1], list):
         return it[1]
+    if type(it).__name__ == 'ARecord':
+        return list(it.values)
     it = concrete(it) if is_concrete(it) else it
     if getattr(I, 'record_reads', False) and isinstance(it, (ADict, AList)):
         I.emit('container-read', node, {'obj': it})
@@ -720,6 +742,13 @@ def comprehension(I, e, kind):
             d.splat_of = it[2]
             d.keymap = getattr(it[2], 'name', None)
         return d
+    if kind == 'set' and getattr(I.P, '_folding_by_interp', False) and not unknown_len and all(is_concrete(x) for x in out):
+        # a constant table built by a helper: keep it a set (the folder turns it into a frozenset)
+        from sa.values import ASet
+        try:
+            return ASet([concrete(x) for x in out])
+        except TypeError:
+            pass
     l = AList(out)
     if isinstance(it, tuple) and len(it) > 3 and it[0] == 'items' and it[3] == 'sorted':
         l.sorted_source = True
@@ -897,7 +926,15 @@ def _decide_order(opn, l, r):
     return None
 
 
+_FLIPPED = {'Eq': ast.Eq, 'NotEq': ast.NotEq, 'Lt': ast.Gt, 'LtE': ast.GtE, 'Gt': ast.Lt, 'GtE': ast.LtE}
+
+
 def compare(I, op, l, r, node):
+    # constant OP unknown is the same test as unknown OP' constant: one orientation for all the refinements below
+    if type(op).__name__ in _FLIPPED and is_concrete(l) and not is_concrete(r):
+        l, r, op = r, l, _FLIPPED[type(op).__name__]()
+    elif type(op).__name__ in ('Is', 'IsNot') and is_concrete(l) and concrete(l) is None and not (is_concrete(r) and concrete(r) is None):
+        l, r = r, l
     if getattr(I, 'record_compares', False):
         I.emit('compare', node, {'op': type(op).__name__, 'l': l, 'r': r})
     cl, cr = concrete(l), concrete(r)
